@@ -60,17 +60,18 @@ Fixpoint split_lines_loop (s : str) (pos start : N) (cur : str) : list (N * str)
     if c =? 10 then
       match t with
       | [] => [(start, rev cur)]
-      | _ => (start, rev cur) :: split_lines_loop t (pos + 1) (pos + 1) []
+      | _ :: _ => (start, rev cur) :: split_lines_loop t (pos + 1) (pos + 1) []
       end
     else if c =? 13 then
       match t with
       | [] => [(start, rev cur)]
-      | 10 :: t' =>
-        match t' with
-        | [] => [(start, rev cur)]
-        | _ => (start, rev cur) :: split_lines_loop t' (pos + 2) (pos + 2) []
-        end
-      | _ => (start, rev cur) :: split_lines_loop t (pos + 1) (pos + 1) []
+      | d :: t' =>
+        if d =? 10 then
+          match t' with
+          | [] => [(start, rev cur)]
+          | _ :: _ => (start, rev cur) :: split_lines_loop t' (pos + 2) (pos + 2) []
+          end
+        else (start, rev cur) :: split_lines_loop t (pos + 1) (pos + 1) []
       end
     else split_lines_loop t (pos + 1) start (c :: cur)
   end.
